@@ -45,6 +45,7 @@ fn leaves_full() -> Vec<A> {
         A::pi("pi", Some("d")),
         A::pi("pi", Some("D")),
         A::pi("po", None),
+        A::pi("pi", Some("")),
     ]
 }
 
@@ -138,7 +139,9 @@ fn canon_f_into(a: &A, keep: &dyn Fn(K) -> bool, fold: Fold, s: &mut String) {
             let _ = write!(s, "C{:?}", a.val.as_deref().unwrap_or(""));
         }
         K::Pi => {
-            let _ = write!(s, "P{}{:?}", a.name, a.val.as_deref().map(|d| fold.apply(d)));
+            // the content of a processing instruction is a string; empty data and no data are the same content
+            // (a supplied comparison is only consulted when both have data: absent vs present stays a difference)
+            let _ = write!(s, "P{}{:?}", a.name, a.val.as_deref().filter(|d| !d.is_empty()).map(|d| fold.apply(d)));
         }
         K::Attr => {
             let _ = write!(s, "@{{{}}}{}={:?}", a.ns, a.name, fold.apply(a.val.as_deref().unwrap_or("")));
@@ -180,6 +183,7 @@ fn shallow_model(a: &A, b: &A, ignore: &[(&str, &str)]) -> bool {
             f(a) == f(b)
         }
         K::Doc => true,
+        K::Pi => a.name == b.name && a.val.as_deref().unwrap_or("") == b.val.as_deref().unwrap_or(""),
         _ => a.ns == b.ns && a.name == b.name && a.val == b.val,
     }
 }
